@@ -236,6 +236,7 @@ func copyTree(src, dst string, keep func(string) bool) {
 // ---------------------------------------------------------------------------
 
 type inst struct {
+	initFuns []string // renamed init functions of the package, in Go's execution order
 	fset    *token.FileSet
 	info    *types.Info
 	pkg     *types.Package
@@ -313,6 +314,15 @@ func instrumentPackage(fset *token.FileSet, li *localImporter, sp pkgSpec) {
 	for i, f := range files {
 		in.curFile = names[i]
 		in.usedRT = false
+		// init functions become ordinary functions that the generated init calls in Go's order
+		// (files by name, declarations in source order) and that SimReset calls again: what they
+		// set up is part of the package's initial state
+		for _, d := range f.Decls {
+			if fd, ok := d.(*ast.FuncDecl); ok && fd.Recv == nil && fd.Name.Name == "init" {
+				fd.Name = ast.NewIdent(fmt.Sprintf("zzinit%d", len(in.initFuns)))
+				in.initFuns = append(in.initFuns, fd.Name.Name)
+			}
+		}
 		in.rewriteFile(f)
 		var buf bytes.Buffer
 		if err := format.Node(&buf, fset, f); err != nil {
@@ -584,6 +594,39 @@ func (in *inst) rewriteChannels(f *ast.File) {
 	})
 }
 
+// rewriteAtomics is rule R8: an operation of sync/atomic that yields a value (Load, Add, Swap,
+// CompareAndSwap - functions and methods alike) is followed by a pre-emption point *inside the
+// expression*: `x.CompareAndSwap(old, old.next.Load())` becomes
+// `simrt.AfterAtomic(s2, x.CompareAndSwap(old, simrt.AfterAtomic(s1, old.next.Load())))`, so that
+// another task can run between the load and the compare-and-swap - the window lock-free code has
+// to get right (check-then-act, ABA).  Statement-level yields (R3) cannot open it.
+func (in *inst) rewriteAtomics(f *ast.File) {
+	isAtomic := func(call *ast.CallExpr) bool {
+		sel, ok := call.Fun.(*ast.SelectorExpr)
+		if !ok {
+			return false
+		}
+		var fn *types.Func
+		if s, ok := in.info.Selections[sel]; ok {
+			fn, _ = s.Obj().(*types.Func)
+		} else if o, ok := in.info.Uses[sel.Sel].(*types.Func); ok {
+			fn = o
+		}
+		if fn == nil || fn.Pkg() == nil || fn.Pkg().Path() != "sync/atomic" {
+			return false
+		}
+		sig, ok := fn.Type().(*types.Signature)
+		return ok && sig.Results().Len() == 1
+	}
+	replaceExprs(f, func(e ast.Expr) ast.Expr {
+		call, ok := e.(*ast.CallExpr)
+		if !ok || !isAtomic(call) {
+			return e
+		}
+		return in.rt("AfterAtomic", intLit(in.site(call.Pos())), call)
+	})
+}
+
 // rewriteSelects is rule R7: a select statement becomes a switch over simrt.Select, which decides
 // and performs the chosen communication in one step of the simulated world:
 //
@@ -676,6 +719,11 @@ func (in *inst) rewriteSelects(f *ast.File) {
 			clauses = append(clauses, &ast.CaseClause{List: []ast.Expr{&ast.BasicLit{Kind: token.INT, Value: fmt.Sprint(idx)}}, Body: body})
 			idx++
 		}
+		if hasDefault == "false" {
+			// a select whose clauses all end in a terminating statement is itself terminating; the
+			// switch is only with a default clause (which Select never takes here)
+			clauses = append(clauses, &ast.CaseClause{Body: []ast.Stmt{&ast.ExprStmt{X: &ast.CallExpr{Fun: id("panic"), Args: []ast.Expr{&ast.BasicLit{Kind: token.STRING, Value: `"simrt.Select: no clause taken"`}}}}}})
+		}
 		call := in.rt("Select", append([]ast.Expr{id(hasDefault)}, args...)...)
 		sw := &ast.SwitchStmt{
 			Init: &ast.AssignStmt{Lhs: []ast.Expr{id(selName)}, Tok: token.DEFINE, Rhs: []ast.Expr{call}},
@@ -753,6 +801,7 @@ func walkSlots(v reflect.Value, slot reflect.Type, visit func(reflect.Value)) {
 func (in *inst) rewriteFile(f *ast.File) {
 	in.refuseConcurrency(f)
 	in.rewriteChannels(f)
+	in.rewriteAtomics(f)
 	// R1: sync types
 	syncUsed := false
 	ast.Inspect(f, func(n ast.Node) bool {
@@ -1193,7 +1242,11 @@ func (in *inst) writeGenerated(files []*ast.File) {
 	for _, s := range in.sites {
 		fmt.Fprintf(&b, "\t\t%q,\n", s)
 	}
-	fmt.Fprintf(&b, "\t})\n}\n\n")
+	fmt.Fprintf(&b, "\t})\n")
+	for _, fn := range in.initFuns {
+		fmt.Fprintf(&b, "\t%s()\n", fn)
+	}
+	fmt.Fprintf(&b, "}\n\n")
 	// R4: SimReset puts every mutable package-level variable back into the state it
 	// has at process start, so that each simulated run is a function of its scenario
 	// only: sync.Map caches become cold, memo tables empty, sync.Once/Mutex fresh,
@@ -1283,6 +1336,9 @@ func (in *inst) writeGenerated(files []*ast.File) {
 	}
 	for _, n := range skipped {
 		fmt.Fprintf(&b, "\t// not reset (initialiser is not a plain literal): %s\n", n)
+	}
+	for _, fn := range in.initFuns {
+		fmt.Fprintf(&b, "\t%s() // the package's init function, as at process start\n", fn)
 	}
 	fmt.Fprintf(&b, "}\n\nfunc zzZero[T any](p *T) {\n\tvar z T\n\t*p = z\n}\n")
 	src := b.String()
